@@ -2583,11 +2583,21 @@ impl<E: Effect> Executor<E> {
             .remove(&pid)
             .ok_or(Error::InvalidArgument("Process not found".to_string()))?;
 
-        // The message clone enters the select_state.receiving slot.
+        // The message clone enters the select_state.receiving slot. The slot can still be occupied:
+        // when a message for a higher-priority receive source arrives while a lower-priority
+        // source's filter has just run, that filter's message is displaced (its source will look
+        // at it again later) and leaves storage here.
         self.retain(&message);
-        if let Some(state) = &mut proc.select_state {
-            state.receiving = Some((receive_idx, message.clone()));
-            state.cursors[receive_idx] = msg_idx;
+        let displaced = match &mut proc.select_state {
+            Some(state) => {
+                let displaced = state.receiving.replace((receive_idx, message.clone()));
+                state.cursors[receive_idx] = msg_idx;
+                displaced
+            }
+            None => None,
+        };
+        if let Some((_, displaced)) = &displaced {
+            self.release(displaced);
         }
 
         // The message (parameter) and source (the receive function) enter the call's stack frame.
